@@ -10,7 +10,7 @@
 
 namespace sim { namespace kern {
 
-struct SemObj { int id; std::string name; bool linked; int value; int open_refs = 0; VC vc; };
+struct SemObj { int id; std::string name; bool linked; int value; int open_refs = 0; VC vc; int init_value = 0; };
 struct ShmObj { int id; std::string name; bool linked; int memfd = -1; size_t size = 0; int open_fds = 0; int maps = 0; };
 struct SockObj;
 enum FdKind { FD_NONE, FD_SHM, FD_SOCK, FD_FILE };
@@ -41,7 +41,7 @@ struct K {
   int eintr_fired = 0, eintr_budget = 8;
   int bad_closes = 0, bad_sem_ops = 0, stray_munmaps = 0, sigpipes = 0;
   uint64_t closes = 0, opens = 0, msg_errors = 0, msg_warnings = 0;
-  int last_sem[MAXT], last_shm[MAXT]; bool last_shm_created[MAXT] = {false};
+  int last_sem[MAXT], last_shm[MAXT]; bool last_shm_created[MAXT] = {false}; bool last_sem_created[MAXT] = {false};
   std::string last_sem_name[MAXT], last_shm_name[MAXT];
   Net *net = nullptr;
   int files_open = 0, dirs_open = 0, libs_open = 0;
